@@ -1,4 +1,4 @@
-\* code as it is (FixWriter off): a rewritten layer is compressed by its original media type
+\* before the repair (FixWriter off): a rewritten layer is compressed by its original media type
 CONSTANTS
  Images <- ImagesData
  Options <- OptsAsisWriter
@@ -10,6 +10,7 @@ CONSTANTS
  FixAdded = TRUE
  FixTag = TRUE
  FixClose = TRUE
+ FixDesc = TRUE
  Fine = FALSE
 SPECIFICATION Spec
 INVARIANTS PostTruthful
